@@ -280,6 +280,51 @@ impl World {
         })
     }
 
+    /// `n` local applications, one after the other, each opening its own association (one datagram to an echoing target
+    /// and its answer) and keeping its socket: how many got their answer, and how many connections the client then
+    /// holds towards the server (for the protocols that carry datagrams inside the transport: one per live association —
+    /// an association that the client has evicted must have given its connection back)
+    pub fn udp_bind_many(&self, n: usize) -> String {
+        if !self.udp {
+            return "no-udp".to_owned();
+        }
+        let cp = self.client_port;
+        let port = self.link_port;
+        let answered = self.rt.block_on(async move {
+            let Ok(target) = UdpSocket::bind("127.0.0.1:0").await else { return (0, vec![]) };
+            let taddr = target.local_addr().unwrap();
+            tokio::spawn(async move {
+                let mut buf = vec![0u8; 2048];
+                while let Ok(Ok((l, from))) = tokio::time::timeout(Duration::from_secs(5), target.recv_from(&mut buf)).await {
+                    let _ = target.send_to(&buf[..l], from).await;
+                }
+            });
+            let mut apps = vec![];
+            let mut ok = 0;
+            let mut buf = vec![0u8; 2048];
+            for i in 0..n {
+                let Ok(app) = UdpSocket::bind("127.0.0.1:0").await else { break };
+                let mut d = vec![0u8, 0, 0, 1, 127, 0, 0, 1];
+                d.extend_from_slice(&taddr.port().to_be_bytes());
+                d.extend_from_slice(format!("hello {}", i).as_bytes());
+                let _ = app.send_to(&d, ("127.0.0.1", cp)).await;
+                if let Ok(Ok((l, _))) = tokio::time::timeout(Duration::from_secs(3), app.recv_from(&mut buf)).await {
+                    ok += (buf[..l] == d[..]) as usize;
+                }
+                apps.push(app);
+            }
+            tokio::time::sleep(Duration::from_millis(400)).await;
+            (ok, apps)
+        });
+        // established connections of this process whose remote port is the server's (the client's side of each link)
+        let links = std::fs::read_to_string("/proc/self/net/tcp").map(|t| t.lines().skip(1).filter(|l| {
+            let f: Vec<&str> = l.split_whitespace().collect();
+            f.len() > 3 && f[3] == "01" && f[2].ends_with(&format!(":{:04X}", port))
+        }).count()).unwrap_or(0);
+        drop(answered.1);
+        format!("answered={} links={}", answered.0, links)
+    }
+
     pub fn udp_multi(&self, apps: usize, targets: usize, per: usize, seed: u64) -> String {
         if !self.udp {
             return "no-udp".to_owned();
